@@ -40,7 +40,7 @@ fn base_cfg() -> Cfg {
 }
 
 fn base_scenario(sides: [Side; 2], cfg: Cfg, plan: Plan) -> Scenario {
-    Scenario { guarded: false, cfg, topo: Topo::CrossV4, bind_wild: false, sides, plan, poll: PollOrder::Fwd, spurious: 0, udp: vec![] }
+    Scenario { guarded: false, via: Via::Wire, cfg, topo: Topo::CrossV4, bind_wild: false, sides, plan, poll: PollOrder::Fwd, spurious: 0, udp: vec![] }
 }
 
 /// (a) the only acknowledgement of a data segment is lost (the receiver has nothing to send, the
@@ -355,8 +355,15 @@ pub fn generate(rng: &mut Rng, spread: &Spread) -> Scenario {
     } else {
         vec![]
     };
+    // a slice of the runs goes end-to-end through turmoil-net's own fixtures (plan as a Rule closure)
+    let via = if rng.chance(1, 16) && plan.hole == Hole::None { Via::Fixture } else { Via::Wire };
+    let mut plan = plan;
+    if via == Via::Fixture {
+        plan.reorder.clear();
+    }
     let mut sc = Scenario {
         guarded,
+        via,
         cfg,
         topo,
         bind_wild: rng.bool(),
@@ -382,6 +389,7 @@ pub fn variants(base: &Scenario, tier: Tier, max_single: usize) -> Vec<Scenario>
         return out;
     }
     let avoid = if base.guarded { defects() } else { Defects::default() };
+    let max_single = if base.via == Via::Fixture { max_single.min(10) } else { max_single };
     let rec = run_conn(base, false);
     if rec.v6.is_some() || rec.harness_error.is_some() {
         return out;
@@ -596,6 +604,11 @@ pub fn shrink(sc: &Scenario) -> Vec<Scenario> {
         s.bind_wild = false;
         push(s);
     }
+    if sc.via == Via::Fixture {
+        let mut s = sc.clone();
+        s.via = Via::Wire;
+        push(s);
+    }
     if sc.topo == Topo::CrossV6 {
         let mut s = sc.clone();
         s.topo = Topo::CrossV4;
@@ -624,8 +637,9 @@ pub fn signature(sc: &Scenario, out: &Outcome, class: &str) -> String {
         })
         .collect();
     format!(
-        "{known}{} {:?} {:?} mss={} caps(s{},r{}) T{} M{} totals({},{}) minread({},{}) zw={} hole={:?} reorder={} faults[{}]",
+        "{known}{}{} {:?} {:?} mss={} caps(s{},r{}) T{} M{} totals({},{}) minread({},{}) zw={} hole={:?} reorder={} faults[{}]",
         if sc.guarded { "G" } else { "U" },
+        if sc.via == Via::Fixture { " FIXTURE" } else { "" },
         out.mode,
         sc.topo,
         sc.topo.mss(&sc.cfg),
